@@ -11,12 +11,15 @@
           24 = C09_mean_amps: templates_amplitudes / clusters_amplitudes
           25 = C09_peak_channel: templates_channels / clusters_channels / templates_probes
           26 = C09_duration: templates_/clusters_waveforms_durations
-          27 = C09_depths: get_depths
+          27 = C09_depths: get_depths (also its outcome for a feature store without a column table:
+               C09_depths_nocols)
+          28 = outside the dense reading, outcome only (C09_sparse_channels): on sparse templates
+               get_amplitudes_true raises and _channels returns the first stored channel
           3  = input outside the stated regime (harness bug)
    The oracle is the term of Model.v instantiated with exact rationals (the instance the theorems are
    about); observed binary64 values are converted exactly and must lie within 2^-48 relative of it. *)
 From Coq Require Import ZArith QArith Qabs List Bool.
-From PV Require Export Base.Tok Base.TokArith C09.Model C09.Spec.
+From PV Require Export Base.Tok Base.TokArith C09.Model C09.Spec C09.Spec2.
 Import ListNotations.
 Open Scope Z_scope.
 
@@ -53,7 +56,9 @@ Record inp := mkinp {
   i_probes : list Z;
   i_pos : mat;
   i_feat : option (list mat * mat);
-  i_nspikes : Z
+  i_nspikes : Z;
+  i_nocols : option Z        (* Some nrows: a feature store of nrows rows loaded WITHOUT pc_feature_ind.npy
+                                (sparse_features.cols is None); i_feat is None then *)
 }.
 Record ampobs := mkampobs { a_spike : list tok; a_phys : list (list (list tok)); a_tamps : list tok }.
 Record obs := mkobs {
@@ -65,8 +70,12 @@ Record obs := mkobs {
 }.
 (* InBig: a dataset of n spikes (n around and above the batch size 50000 of get_depths) that repeats the
    K = length data spikes given here (features, templates) periodically; only get_depths is observed. *)
-Inductive input := InModel (i : inp) | InBig (pos : mat) (data : list mat) (cols : mat) (st : list Z) (n : Z) | InBad.
-Inductive observed := ObsAll (o : obs) | ObsBig (o : option (option (list tok))) | ObsCrash.
+(* InSparse: a dataset with template_ind.npy (sparse templates): the column table; observed: did the two
+   get_amplitudes_true calls raise, and what templates_channels / clusters_channels returned. *)
+Inductive input := InModel (i : inp) | InBig (pos : mat) (data : list mat) (cols : mat) (st : list Z) (n : Z)
+                 | InSparse (cols : mat) | InBad.
+Inductive observed := ObsAll (o : obs) | ObsBig (o : option (option (list tok)))
+                    | ObsSparse (amp_t_raised amp_c_raised : bool) (chan_t chan_c : option (list Z)) | ObsCrash.
 Record case := { cid : Z; cin : input; cobs : observed }.
 
 Definition flag (code : Z) (ok : bool) : list Z := if ok then [] else [code].
@@ -148,7 +157,8 @@ Definition regime (i : inp) : bool :=
   amp_regime (mk_ai i false) && amp_regime (mk_ai i true) &&
   pos_finite (i_factor i) && pos_finite (i_rate i) &&
   Nat.eqb (length (i_probes i)) nc && depth_regime (mk_di i) &&
-  forallb (fun s => 0 <=? s) (i_st i) && forallb (fun s => 0 <=? s) (i_sc i).
+  forallb (fun s => 0 <=? s) (i_st i) && forallb (fun s => 0 <=? s) (i_sc i) &&
+  match i_nocols i, i_feat i with Some nrows, Some _ => false | Some nrows, None => 0 <=? nrows | None, _ => true end.
 
 (* ---------- the check ---------- *)
 Definition zl_eq (a b : list Z) : bool := zl_eqb a b.
@@ -196,8 +206,14 @@ Definition check (c : case) : list Z :=
   | InModel _, ObsCrash => [1; 20]
   | InBig _ _ _ _ _, ObsCrash => [1; 20]
   | InBig pos data cols st n, ObsBig o => check_big pos data cols st n o
-  | InBig _ _ _ _ _, ObsAll _ => [3]
+  | InBig _ _ _ _ _, _ => [3]
+  | InSparse _, ObsCrash => [1; 20]
+  | InSparse cols, ObsSparse rt rc ct cc =>
+      let g := rt && rc && oeq zl_eq (Some (channels_sparse cols)) ct && oeq zl_eq (Some (channels_sparse cols)) cc in
+      flag 1 g ++ flag 28 g
+  | InSparse _, _ => [3]
   | InModel _, ObsBig _ => [3]
+  | InModel _, ObsSparse _ _ _ _ => [3]
   | InModel i, ObsAll o =>
       if negb (regime i) then [3] else
       let nc := length (i_wmi i) in
@@ -210,10 +226,19 @@ Definition check (c : case) : list Z :=
                  match o_chan_c o with Some l => peak_channels_b nc (i_cdata i) l | None => false end in
       let g26 := oeq closel (waveform_durations_Q nc (i_tdata i) (tok_Q (i_rate i))) (o_dur_t o) &&
                  oeq closel (waveform_durations_Q nc (i_cdata i) (tok_Q (i_rate i))) (o_dur_c o) in
-      let g27 := match get_depths_Q NBATCH (mk_di i), o_depths o with
-                 | Some (Some l), Some (Some l') => closel l l'
-                 | Some None, Some None => true
-                 | _, _ => false
+      let g27 := match i_nocols i with
+                 | Some nrows =>      (* no column table: raises iff one row per spike, else returns None *)
+                     match get_depths_nocols (i_nspikes i) nrows, o_depths o with
+                     | None, None => true
+                     | Some None, Some None => true
+                     | _, _ => false
+                     end
+                 | None =>
+                     match get_depths_Q NBATCH (mk_di i), o_depths o with
+                     | Some (Some l), Some (Some l') => closel l l'
+                     | Some None, Some None => true
+                     | _, _ => false
+                     end
                  end in
       check_amp (mk_ai i false) (i_factor i) (o_amp_t o) ++
       check_amp (mk_ai i true) (i_factor i) (o_amp_c o) ++
